@@ -150,41 +150,30 @@ def run(ctx):
     except Skip:
         pass
 
-    # ---- R20.3
+    # ---- R20.3 (THIR value / path tables; polarity-safe)
+    from .. import pathx as _px
     for kind, pred in (("file", "is_file"), ("dir", "is_dir")):
         try:
             f = ctx.anchor_fn("R20.3", "project_origins::DirList::has_" + kind)
-            fns = [op.const_fn() for _, t in f.calls() for op in t.args if op.const_fn() is not None]
-            names = [c.def_ for c in fns]
-            good = any(n.endswith("FileType::" + pred) for n in names)
-            other = "is_dir" if pred == "is_file" else "is_file"
-            bad = any(n.endswith("FileType::" + other) for n in names)
-            ctx.require(good and not bad, "R20.3", "has_%s:%s" % (kind, pred),
-                        "has_%s tests FileType::%s" % (kind, pred), f.loc(f.line),
-                        fail="has_%s no longer tests FileType::%s (found %s)" % (kind, pred, names))
+            vals = {(q.out, q.val) for q in _px.Enum().paths(thir.root(f))}
+            want = {("val", "Option::map_or(HashMap::get(self.0, name), False, FileType::%s)" % pred),
+                    ("val", "Option::is_some_and(HashMap::get(self.0, name), FileType::%s)" % pred)}
+            ctx.require(len(vals) == 1 and vals <= want, "R20.3", "has_%s:%s" % (kind, pred),
+                        "has_%s(name) = the listing has `name` and its type satisfies FileType::%s (absent => false)" % (kind, pred), f.loc(f.line),
+                        detail=str(sorted(vals)), fail="has_%s is no longer `entry present and FileType::%s` with absent => false: %s" % (kind, pred, sorted(vals)))
             g = ctx.anchor_fn("R20.3", "project_origins::DirList::if_has_" + kind)
-            cs = call_sites(g, "DirList::has_" + kind)
-            oth = call_sites(g, "DirList::has_" + ("dir" if kind == "file" else "file"))
-            ok = len(cs) == 1 and not oth
-            if ok:
-                # Some(project) only on the true edge
-                bi, t = cs[0]
-                cfg = CFG(g)
-                sw = g.blocks[t.target].term if t.target is not None else None
-                ok = sw is not None and sw.kind == "switch"
-                if ok:
-                    false_t = [tt for v, tt in sw.cases if v == 0]
-                    some_blocks = [b.idx for b in g.blocks for s in b.stmts
-                                   if s.kind == "=" and s.rv.kind == "agg" and s.rv.agg_adt() and s.rv.agg_adt()[1] == "Some"]
-                    ok = bool(some_blocks) and bool(false_t) and all(
-                        not cfg.reaches(false_t[0], sb) for sb in some_blocks)
-                    for sb in some_blocks:
-                        for s in g.blocks[sb].stmts:
-                            if s.kind == "=" and s.rv.kind == "agg" and s.rv.agg_adt() and s.rv.agg_adt()[1] == "Some":
-                                os_ = origins(g, s.rv.ops[0])
-                                ok = ok and any(a.kind == "arg" and a.data == 3 for a in os_)
-            ctx.require(ok, "R20.3", "if_has_%s" % kind,
-                        "if_has_%s returns Some(project) exactly when has_%s holds" % (kind, kind), g.loc(g.line))
+            rows = set()
+            for q in _px.Enum().paths(thir.root(g)):
+                ev = None
+                for e in q.ev:
+                    if e[0] == "branch":
+                        core, neg = _px.split_not(e[1])
+                        if core == "DirList::has_%s(self, name)" % kind:
+                            ev = (e[2] != neg)
+                rows.add((ev, q.val))
+            ctx.require(rows == {(True, "Some{0: project}"), (False, "None")}, "R20.3", "if_has_%s" % kind,
+                        "if_has_%s returns Some(project) exactly when has_%s holds" % (kind, kind), g.loc(g.line), detail=str(sorted(rows, key=str)),
+                        fail="if_has_%s no longer returns Some(project) exactly when has_%s(name) holds: %s" % (kind, kind, sorted(rows, key=str)))
         except Skip:
             pass
 
